@@ -912,7 +912,7 @@ class QuadraticModel(QuadraticViewsMixin):
                     and self.offset == other.offset
                     and self.linear == other.linear
                     and self.adj == other.adj)
-        except AttributeError:
+        except (AttributeError, ValueError):
             return False
 
     def is_linear(self) -> bool:
